@@ -3,6 +3,7 @@ CONSTANTS
   K = 3
   N = 1
   MaxFreeze = 1
+  MaxCancel = 0
   Twin = "token_after_gate"
   Record = FALSE
 INVARIANTS
